@@ -239,6 +239,14 @@ def all_single_ops(impl, ti, *, labels, full=True):
                 ops.append({"op": "w.sort", "t": ti, "n": p, "reverse": rev, "deep": deep, "tree_api": False})
     ops.append({"op": "w.removechildren", "t": ti, "n": [], "tree_api": True})
     ops.append({"op": "w.sort", "t": ti, "n": [], "tree_api": True})
+    ops.append({"op": "w.sort", "t": ti, "n": [], "tree_api": True, "deep": False, "reverse": True})
+    # `del tree[key]` with every kind of key for this tree
+    for keys in H.del_keys(impl, ti, labels).values():
+        for key in keys:
+            ops.append(dict({"op": "w.del", "t": ti}, **key))
+    # the sibling shortcuts on the system root (AttributeError: it has no parent)
+    for via in ("prepend_sibling", "append_sibling"):
+        ops.append({"op": "w.add", "t": ti, "p": [], "ref": [], "a": labels[0], "via": via})
     return ops
 
 
